@@ -88,12 +88,14 @@ def make_prop_val_node(
         if types is not None:
 
             def setter(self, value):
-                nonlocal types
+                # an empty tuple stands for type(self) of *this* call; it must not be latched
+                # into the closure (which all instances of all subclasses share)
+                accepted_types = types
                 if isinstance(types, tuple) and len(types) == 0:
-                    types = type(self)
-                if not isinstance(value, types):
+                    accepted_types = type(self)
+                if not isinstance(value, accepted_types):
                     raise TypeError(
-                        f"{func.__name__} must be of type: {types}. {value} given."
+                        f"{func.__name__} must be of type: {accepted_types}. {value} given."
                     )
                 if (
                     base_type is not None
@@ -149,11 +151,15 @@ def make_prop_pointer(
         if types is not None:
 
             def setter(self, value):
-                nonlocal types
+                # an empty tuple stands for type(self) of *this* call; it must not be latched
+                # into the closure (which all instances of all subclasses share)
+                accepted_types = types
                 if isinstance(types, tuple) and len(types) == 0:
-                    types = type(self)
-                if not isinstance(value, types):
-                    raise TypeError(f"{func.__name__} must be of type: {types}")
+                    accepted_types = type(self)
+                if not isinstance(value, accepted_types):
+                    raise TypeError(
+                        f"{func.__name__} must be of type: {accepted_types}"
+                    )
                 if base_type is not None and not isinstance(value, base_type):
                     value = base_type(value)
                 if validator:
